@@ -5,6 +5,7 @@
 #include "api.h"
 static const ApiFn *find(const char *name) { for (ApiFn *f = API_TABLE; f->name; f++) if (!strcmp(f->name, name)) return f; return NULL; }
 static void pv(double v, xrl_error **e) { fprintf(OUT, "[%d,", *e == NULL); jd(v); fputc(']', OUT); xrl_clear_error(e); }
+extern void Refractive_Index2(const char[], double, double, xrlComplex *, xrl_error **) __attribute__((weak));   /* exported twin used by bindings, not in the headers */
 static void event(const char *s, double E, double th, double ph, double rho) {
   xrl_error *e = NULL; int n = 0; int *el = NULL; double *mf = NULL; double nistrho = 0; int src = 0;
   struct compoundData *cd = CompoundParser(s, NULL); struct compoundDataNIST *cdn = NULL;
@@ -22,7 +23,8 @@ static void event(const char *s, double E, double th, double ph, double rho) {
     fputs(",\"parts\":[", OUT); for (int i = 0; i < n; i++) { ia[0] = el[i]; if (i) fputc(',', OUT); pv(api_call(g, ia, da, NULL, &e), &e); } fputs("]}", OUT);
   }
   fputs("},\"re\":", OUT); pv(Refractive_Index_Re(s, E, rho, &e), &e); fputs(",\"im\":", OUT); pv(Refractive_Index_Im(s, E, rho, &e), &e);
-  { xrlComplex z = Refractive_Index(s, E, rho, &e); fprintf(OUT, ",\"cx\":[%d,", e == NULL); jd(z.re); fputc(',', OUT); jd(z.im); fputc(']', OUT); xrl_clear_error(&e); }
+  { xrlComplex z = Refractive_Index(s, E, rho, &e); fprintf(OUT, ",\"cx\":[%d,", e == NULL); jd(z.re); fputc(',', OUT); jd(z.im); fputc(']', OUT); int ok = e == NULL; xrl_clear_error(&e);
+    xrlComplex z2 = {0, 0}; if (Refractive_Index2) Refractive_Index2(s, E, rho, &z2, &e); else z2 = z; fprintf(OUT, ",\"cx2\":[%d,", Refractive_Index2 ? e == NULL : ok); jd(z2.re); fputc(',', OUT); jd(z2.im); fputc(']', OUT); xrl_clear_error(&e); }
   fputs(",\"fi\":[", OUT); for (int i = 0; i < n; i++) { if (i) fputc(',', OUT); pv(Fi(el[i], E, &e), &e); }
   fputs("],\"aw\":[", OUT); for (int i = 0; i < n; i++) { if (i) fputc(',', OUT); pv(AtomicWeight(el[i], &e), &e); }
   fputs("],\"cs\":[", OUT); for (int i = 0; i < n; i++) { if (i) fputc(',', OUT); pv(CS_Total(el[i], E, &e), &e); }
